@@ -185,9 +185,14 @@ func main() {
 	}
 	start := time.Now()
 	over := func() bool { return time.Since(start) > budget }
-	installHooks()
 	all := c16body.Bodies(seed)
 	res := &result{}
+	// ground truth without poisoning (hooks not installed yet): what every body delivers
+	plain := make([][]string, len(all))
+	for i, b := range all {
+		plain[i], _ = b.Run()
+	}
+	installHooks()
 	report := func(sig, msg string, det map[string]any) {
 		if len(res.Violations) < 20 {
 			det["signature"], det["message"] = sig, msg
@@ -207,6 +212,9 @@ func main() {
 		}
 		r, prob := b.Run()
 		solo[i] = r
+		if strings.Join(r, "|") != strings.Join(plain[i], "|") {
+			report("result-aliases-pooled-memory", b.Name+": results change when pooled buffers are poisoned on Put (a returned slice aliases pool memory)", map[string]any{"body": b.Name, "mode": "solo"})
+		}
 		if prob != "" {
 			report("result-mutated-after-delivery", b.Name+": "+prob, map[string]any{"body": b.Name, "mode": "solo"})
 		}
@@ -226,6 +234,8 @@ func main() {
 		{"2 demuxers + muxer", []int{0, 1, 2}, []int{2, 1}},
 		{"2 demuxers (big payloads)", []int{3, 0}, []int{2, 2}},
 		{"demuxer data + demuxer packets", []int{1, 4}, []int{2, 1}},
+		{"full PES headers + descriptor zoo", []int{5, 6}, []int{2, 1}},
+		{"adaptation-field variety (packets + data)", []int{7, 8}, []int{2, 1}},
 	}
 	if tier == "thorough" {
 		scens = []scen{
@@ -233,6 +243,8 @@ func main() {
 			{"2 demuxers (big payloads)", []int{3, 0}, []int{3, 2}},
 			{"demuxer data + demuxer packets", []int{1, 4}, []int{3, 2}},
 			{"3 demuxers", []int{0, 1, 3}, []int{2, 1}},
+			{"full PES headers + descriptor zoo", []int{5, 6}, []int{3, 2}},
+			{"adaptation-field variety (packets + data)", []int{7, 8}, []int{3, 2}},
 		}
 	}
 	outcomes := map[string]bool{}
